@@ -212,6 +212,10 @@ func c14Pool() []system.IP {
 func c14Run(t *testing.T, out *vfh.Out, static []netip.Addr, as []system.IP) {
 	rd := &RDNSS{Auto: true, Lifetime: 9 * time.Second, Servers: static,
 		Addrs: func() ([]system.IP, error) { return as, nil }}
+	first := ""
+	// static servers with spare capacity, as a parser building the slice incrementally leaves them
+	static = append(make([]netip.Addr, 0, len(static)+2), static...)
+	rd.Servers = static
 	c := new(vfh.Toks).S("wd").N(len(static))
 	for _, s := range static {
 		c.Addr(s)
@@ -220,24 +224,32 @@ func c14Run(t *testing.T, out *vfh.Out, static []netip.Addr, as []system.IP) {
 	for _, a := range as {
 		sysIPToks(c, a)
 	}
-	ra := &ndp.RouterAdvertisement{}
-	impl := new(vfh.Toks)
-	if err := rd.Apply(ra); err != nil {
-		impl.S("err")
-	} else {
-		if len(ra.Options) != 1 {
-			t.Fatalf("RDNSS.Apply produced %d options", len(ra.Options))
+	// the option is built three times from the same plugin: every build must be the same
+	for build := 0; build < 3; build++ {
+		ra := &ndp.RouterAdvertisement{}
+		impl := new(vfh.Toks)
+		if err := rd.Apply(ra); err != nil {
+			impl.S("err")
+		} else {
+			if len(ra.Options) != 1 {
+				t.Fatalf("RDNSS.Apply produced %d options", len(ra.Options))
+			}
+			o := ra.Options[0].(*ndp.RecursiveDNSServer)
+			if o.Lifetime != 9*time.Second {
+				t.Fatalf("RDNSS lifetime %s", o.Lifetime)
+			}
+			impl.N(len(o.Servers))
+			for _, s := range o.Servers {
+				impl.Addr(s)
+			}
 		}
-		o := ra.Options[0].(*ndp.RecursiveDNSServer)
-		if o.Lifetime != 9*time.Second {
-			t.Fatalf("RDNSS lifetime %s", o.Lifetime)
+		if build == 0 || impl.String() != first {
+			out.Line(c.String(), impl.String())
 		}
-		impl.N(len(o.Servers))
-		for _, s := range o.Servers {
-			impl.Addr(s)
+		if build == 0 {
+			first = impl.String()
 		}
 	}
-	out.Line(c.String(), impl.String())
 }
 
 func verifC14(t *testing.T, r *vfh.Rand, out *vfh.Out) {
